@@ -25,14 +25,19 @@ RULE = ("reply: 1-3 sequential exchanges on one real radiusConn over loopback UD
         "absent / RFC 5176 / as-transmitted / garbage / one bit flipped, request authenticator also with one bit flipped in any octet, Event-Timestamp absent / inside / at +-window / one past / far / zero, "
         "targets of all four kinds, mutable, stripped, non-whitelisted and vendor attributes, Proxy-State, length field "
         "off by some octets, trailing octets (incl. a fake attribute 80), literal junk. auth: Provider.Authenticate "
-        "against a server that answers the live request with scripted genuine/forged/flipped replies. "
+        "against a server that answers the live request with scripted genuine/forged/flipped replies (decision by the Coq "
+        "function authenticate_radius; the model prints the request it expects on the wire). corpus: defect witnesses, "
+        "Go literal tables (lits) and one CoA per pkg/aaa attribute name. "
         "Non-trivial: a reply case where some datagram is delivered and some is not; a coa case with at least one reply; "
         "every auth case.  Distinct: by case text.")
 TRUSTED = ["MD5 is an argument of the model (OCaml Digest in the driver, crypto/md5 in Go, hashlib in the generator); HMAC-MD5 is "
            "defined in Coq from it (RFC 2104)",
            "layeh.com/radius Parse/Encode are transcribed in the model (parse, enc_attrs, build_request) and tied by correspondence only",
            "rendering of IP addresses/prefixes as strings is not modelled (such attributes never survive stripNonMutableAttrs)"]
-ASSUMPTIONS = ["authenticity conclusions are relative to the unforgeability of MD5/HMAC-MD5 under the shared secret: the theorems "
+ASSUMPTIONS = ["model variant head = /repo HEAD (Event-Timestamp not required while the window is enabled: known finding "
+               "coa-without-event-timestamp-bypasses-window); C08_coa_admission is proved for repaired, the HEAD guarantee is "
+               "C08_coa_admission_head_window_only_if_timestamped",
+               "authenticity conclusions are relative to the unforgeability of MD5/HMAC-MD5 under the shared secret: the theorems "
                "state that the verification equations hold; C08_forged_not_acted_on takes unforgeability as an explicit premise",
                "UDP datagrams on loopback between one socket pair are delivered in order"]
 
